@@ -209,9 +209,12 @@ class IDMan(Set[int]):
 
     def discard(self, element: int) -> None:
         """Return the specified ID for others to use, or do nothing if already removed."""
-        self._used.discard(element)
-        if element < self.search_pos:
-            self.search_pos = element
+        # Only an ID which was actually handed out can lower the search position, otherwise
+        # discarding -1 or 0 would make the next automatic IDs non-positive.
+        if element in self._used:
+            self._used.remove(element)
+            if element < self.search_pos:
+                self.search_pos = element
 
     def remove(self, element: int) -> None:
         """Return the specified ID for others to use."""
